@@ -136,13 +136,21 @@ func (e *Eng) actRedeem() {
 		badAuth = true
 	}
 	redirect := g.Redirect
-	switch rapid.IntRange(0, 9).Draw(t, "redirect") {
+	switch rapid.IntRange(0, 13).Draw(t, "redirect") {
 	case 0:
 		redirect = "https://rp.example/other"
 	case 1:
 		redirect = ""
 	case 2:
 		redirect = "https://rp.example/cb/"
+	case 3:
+		redirect = "https://RP.example/cb"
+	case 4:
+		redirect = "https://rp.example/%63b"
+	case 5:
+		redirect = "https://rp.example:443/cb"
+	case 6:
+		redirect = "https://rp.example/cb?x=1"
 	}
 	if g.Redirect != "" && redirect != g.Redirect {
 		reasons = append(reasons, "redirect")
@@ -169,7 +177,18 @@ func (e *Eng) actRedeem() {
 	if badAuth {
 		auth.BasicPass = "wrong-secret"
 	}
+	e.w.ResetCalls()
+	e.w.Record = true
 	tr := e.w.Token(e.form(presenter, form), auth, h.TokenOpts{})
+	e.w.Record = false
+	if !tr.OK() {
+		for _, c := range e.w.Calls {
+			if c.Method == "CreateAccessTokenSession" || c.Method == "CreateRefreshTokenSession" {
+				e.viol("C02/refused-attempt-created-token-record", "refused redemption of %v (reasons %v) called %s", code, reasons, c.Method)
+				e.viol("C10/refused-attempt-created-token-record", "refused redemption of %v (reasons %v) called %s", code, reasons, c.Method)
+			}
+		}
+	}
 	e.step("redeem:" + strings.Join(reasons, "+"))
 	e.logf("redeem %v by=%s badAuth=%v redirect=%q reasons=%v -> %v", code, presenter, badAuth, redirect, reasons, tr.Err)
 	issued := tr.Access != "" || tr.Refresh != "" || tr.IDToken != ""
